@@ -810,6 +810,7 @@ func TestVerif_C16_live(t *testing.T) {
 		}
 	}
 	var wg sync.WaitGroup
+	var nIncomplete atomic.Int64
 	for _, j := range jobs {
 		wg.Add(1)
 		go func(j job) {
@@ -821,9 +822,18 @@ func TestVerif_C16_live(t *testing.T) {
 				}
 				t.Logf("job %s attempt %d: %v", j.name, attempt, err)
 			}
-			t.Errorf("harness: job %s could not be completed: %v", j.name, err)
+			// a condition could not be set up: no verdict for what this job did not reach, not a failure
+			r.Cap("job %s could not be completed in two attempts (its remaining conditions were not judged): %v", j.name, err)
+			nIncomplete.Add(1)
 		}(j)
 	}
 	wg.Wait()
-	c16lPanics.Range(func(k, _ any) bool { t.Errorf("harness: %v", k); return true })
+	c16lPanics.Range(func(k, _ any) bool {
+		r.Cap("a read running beside a condition could not be judged: %v", k)
+		return true
+	})
+	r.Set("jobs_not_completed", nIncomplete.Load())
+	if int(nIncomplete.Load()) == len(jobs) {
+		t.Fatalf("harness: no job at all could be completed")
+	}
 }
